@@ -215,11 +215,12 @@ RunLogClauses(rl) ==
        \* the same statement on the flags the run-log message carries (it has no state field): a line shown as cancelled or failed
        \* has ended and offers nothing
        \* (every visit takes one tick between creating its item and acting - NodeVisitorGeneric.visit yields first - so the item of
-       \*  a visit to a line that was cancelled already is concluded one tick after it appears: judged from the second sample on)
+       \*  a visit to a line that was cancelled already is concluded one interpreter tick after it appears: judged from the second
+       \*  sample on, at ticks in which the interpreter ran - while the run is paused or held nothing is concluded)
        <<"C15.cancelled-or-failed-line-is-closed",
          LET Open(x) == (x.cancelled \/ x.failed) /\ ~(x.end # -1 /\ ~x.cancellable /\ ~x.forcible)
              prl == IF "rl" \in DOMAIN p THEN p.rl ELSE <<>>
-         IN \A i \in DOMAIN rl : Open(rl[i]) => ~\E j \in DOMAIN prl : prl[j].id = rl[i].id /\ Open(prl[j])>>,
+         IN ranTick => \A i \in DOMAIN rl : Open(rl[i]) => ~\E j \in DOMAIN prl : prl[j].id = rl[i].id /\ Open(prl[j])>>,
        <<"C15.closed-item-offers-nothing",
          \A i \in DOMAIN rl : rl[i].state \in {"completed", "failed", "cancelled"} => ~rl[i].cancellable /\ ~rl[i].forcible>> >>
 
